@@ -183,6 +183,45 @@ def run(ctx):
             else:
                 ctx.ok(R_verb, {"fn": norm(f.path).split("::")[-1], "line": t["ln"]})
 
+    # the root header has two readers — the legacy WmoParser::parse_header and the binrw struct `Mohd` behind parse_wmo.  The writer
+    # must lay MOHD out as the struct declares it, field width by field width (the legacy pair agreeing with itself is not enough)
+    R_mohd = ctx.rule("C15.mohd-written-as-the-header-struct", "WmoWriter::write_header emits the primitive widths of root_parser::Mohd's fields in order, and declares their sum as the chunk size", floor=1)
+    mohd = next((a_ for a_ in wmo.items["adts"] if a_["path"].endswith("root_parser::Mohd")), None)
+    whf = next((f for f in wmo.fn_list if f.hir and f.kind != "Closure" and norm(f.path).endswith("writer::WmoWriter::write_header")), None)
+    if mohd is None or whf is None:
+        ctx.bad(R_mohd, "MOHD|missing", "-", "Mohd struct or write_header not found", "anchor gone")
+    else:
+        ctx.saw_fn(whf)
+
+        def widths_of(ty):
+            m_ = re.fullmatch(r"\[(\w+); (\d+)\]", ty)
+            if m_:
+                return [int(re.sub(r"\D", "", m_.group(1))) // 8] * int(m_.group(2))
+            return [int(re.sub(r"\D", "", ty)) // 8] if re.fullmatch(r"[uif]\d+", ty) else [None]
+        want = [w_ for fl_ in mohd["fields"] for w_ in widths_of(fl_["ty"])]
+        wt_ = wire.specialise(wire.extract(wmo, whf, "w")[0], {})
+        toks = [t_ for t_ in wt_ if t_.k == "P"]
+        got = [t_.w for t_ in toks]
+        # [u8;4] colour is written as one u32: merge runs of 1-byte fields of the struct into the widths the writer uses
+        def merge(ws, pattern):
+            out_, i_ = [], 0
+            for p_ in pattern:
+                acc = 0
+                while i_ < len(ws) and acc < p_:
+                    acc += ws[i_]
+                    i_ += 1
+                out_.append(acc)
+            return out_ + ws[i_:]
+        wantm = merge(want, got) if None not in want else want
+        declared = next((hirq.lit_int(hirq.strip(fe)) for x in hirq.walk(whf.hir["body"]) if x.get("k") == "struct" and (x["res"].get("def") or "").endswith("ChunkHeader") for fn_, fe in x["fields"] if fn_ == "size"), None)
+        if None in want:
+            ctx.bad(R_mohd, "MOHD|struct-not-primitive", whf.where, "Mohd has a field of non-primitive type", "shape changed")
+        elif got != wantm or declared != sum(want):
+            ctx.bad(R_mohd, "write_header|layout", whf.where, "writer emits widths %s (declared size %s); root_parser::Mohd is %s = %d bytes" % (got, declared, want, sum(want)),
+                    "parse_wmo reads the header through the struct: fields after the first difference come back wrong (flags read from the wmoID slot / from the next chunk's header)")
+        else:
+            ctx.ok(R_mohd, {"bytes": sum(want), "fields": len(mohd["fields"])})
+
     W = {norm(f.path).split("::")[-1]: f for f in wmo.fn_list if "writer::WmoWriter::write_" in f.path and f.kind != "Closure" and f.hir}
 
     # group files: the fixed MOGP header the writer emits is as long as the one the group parser consumes
